@@ -51,6 +51,20 @@ func (d *typeDictionary) add(n Node, name string, td *Typedef) {
 	d.dict[n][name] = td
 }
 
+// merge adds all the entries of o to d.
+func (d *typeDictionary) merge(o *typeDictionary) {
+	defer d.mu.Unlock()
+	d.mu.Lock()
+	for n, tds := range o.dict {
+		if d.dict[n] == nil {
+			d.dict[n] = map[string]*Typedef{}
+		}
+		for name, td := range tds {
+			d.dict[n][name] = td
+		}
+	}
+}
+
 // find returns the Typedef name define in node n, or nil.
 func (d *typeDictionary) find(n Node, name string) *Typedef {
 	defer d.mu.Unlock()
